@@ -609,6 +609,13 @@ func (g *gen) reuseCell(proto int, t *typeDesc) cell {
 		for _, e := range t.sub {
 			c.fields = append(c.fields, g.fieldFor(proto, e))
 		}
+		if g.shortTuples && g.r.Intn(3) == 0 {
+			// fewer fields than elements: the driver reads the missing trailing elements as null
+			c.fields = c.fields[:g.r.Intn(len(c.fields))]
+			if len(c.fields) == 0 {
+				c.fields = []optBytes{}
+			}
+		}
 		return c
 	}
 	f := g.fieldFor(proto, t)
@@ -634,7 +641,7 @@ func rowItems(cols []colSpec, row []cell) []optBytes {
 		if c.t.kind == 't' {
 			for j := range c.t.sub {
 				switch {
-				case cl.kind == 'z':
+				case cl.kind == 'z' || j >= len(cl.fields):
 					items = append(items, optBytes{null: true})
 				default:
 					items = append(items, cl.fields[j])
@@ -662,6 +669,13 @@ func inplace(g *valgen.GT) bool {
 }
 
 func reuseClass(api, init string, slots []slot, cols []colSpec, rows [][]cell) (op, class string) {
+	for _, row := range rows {
+		for i, c := range cols {
+			if c.t.kind == 't' && row[i].kind == 't' && len(row[i].fields) != len(c.t.sub) {
+				return "reusex", "reuse/" + api + "/short-tuple"
+			}
+		}
+	}
 	for _, s := range slots {
 		if inplace(s.g) {
 			return "reusex", "reuse/" + api + "/inplace-composite"
@@ -701,6 +715,7 @@ func (x *runner) reuseOps(v int, mult int) {
 		}
 		ncols := 1 + g.r.Intn(4)
 		g.inplace = g.r.Intn(5) == 0
+		g.shortTuples = g.r.Intn(12) == 0
 		g.count = map[*typeDesc]int{}
 		var slots []slot
 		for i := 0; i < ncols; i++ {
@@ -732,7 +747,16 @@ func (x *runner) reuseOps(v int, mult int) {
 		for _, s := range slots {
 			dt = append(dt, s.g.String())
 		}
-		x.emit(fmt.Sprintf("%s %s %s %d D %d %s %s %s", op, api, init, v, len(slots), strings.Join(dt, " "),
+		if g.r.Intn(40) == 0 && api != "mapscan" {
+			// one destination too few / too many: Scan fails on the first row ("not enough columns to scan into")
+			if g.r.Bool() && len(dt) > 1 {
+				dt = dt[:len(dt)-1]
+			} else {
+				dt = append(dt, "string")
+			}
+			op, class = "reusex", "reuse/"+api+"/dest-count"
+		}
+		x.emit(fmt.Sprintf("%s %s %s %d D %d %s %s %s", op, api, init, v, len(dt), strings.Join(dt, " "),
 			strings.Join(r.toks(), " "), vh.Hex(r.encFrame())), class)
 	}
 }
@@ -829,12 +853,30 @@ func (g *gen) sysCell(proto int, t *typeDesc, k byte, i int) cell {
 	return cell{kind: 'b', b: f.b}
 }
 
-func (x *runner) reuseSystematic(v int) {
+// allPatterns: every order of value / null / empty cells over 1..n rows
+func allPatterns(n int) []string {
+	l := []string{""}
+	var out []string
+	for i := 0; i < n; i++ {
+		var nl []string
+		for _, p := range l {
+			for _, c := range "VNE" {
+				nl = append(nl, p+string(c))
+			}
+		}
+		out = append(out, nl...)
+		l = nl
+	}
+	return out
+}
+
+func (x *runner) reuseSystematic(v int, patterns []string) {
 	g := x.g
 	g.count = map[*typeDesc]int{}
+	g.shortTuples = false
 	for _, sc := range sysCases() {
 		for _, ds := range sc.dests {
-			for pi, pat := range sysPatterns {
+			for pi, pat := range patterns {
 				for ai, api := range []string{"scan", "scanner", "mapscan"} {
 					if api == "mapscan" && pi%2 == 1 {
 						continue
